@@ -421,7 +421,7 @@ def run_batch(ctx, cases, seed):
                 if outcome == 'leak':
                     viol.append((leak_slug(cfg, script, ref, exc, len(sent_at_return)), 'factory raised %s: %s' % (type(exc).__name__, str(exc)[:200])))
                 elif outcome == 'connected' and 'connected' not in allowed:
-                    if ref['eof'] and c.is_closed:
+                    if ref['eof'] and c.is_closed and sent_at_return and sent_at_return[-1][1][0] == 'close' and len(sent_at_return) == ref['consumed']:
                         viol.append(('server-eof-during-handshake-reported-ready',
                                      'the server closed the connection instead of answering %s; factory returned the (closed) connection as ready' % (
                                          sent_at_return[-1][0] if sent_at_return else '?',)))
@@ -624,7 +624,7 @@ def run(ctx):
                "READY in answer to AUTH_RESPONSE may be accepted or refused; a forced compression algorithm that is not available on both sides may "
                "fail the connection or go on uncompressed")
     rng = ctx.rng
-    budget = 38 if ctx.quick else 400
+    budget = 34 if ctx.quick else 400
     import time
     t_run0 = time.time()          # the budget counts from here (imports done); at most 25 s of start-up slack on a loaded machine
     base = ctx.seed * 1000003 + (ctx.worker or 0) * 100003
@@ -688,4 +688,4 @@ def run(ctx):
     ctx.floor_counters = {"handshakes": 2000 * k, "outcome_connected": 300 * k, "outcome_auth_failed": 60 * k, "outcome_conn_error": 300 * k,
                           "outcome_timeout": 50 * k, "ready_connections_probed_with_requests": 200 * k, "handshakes_with_segment_framing": 50 * k,
                           "handshakes_with_sasl_exchange": 150 * k, "handshakes_with_v1_credentials": 20 * k, "startup_frames_checked": 1000 * k,
-                          "ready_connections_using_frame_compression": 20 * k}
+                          "ready_connections_using_frame_compression": 20 * k, "workers_that_completed_the_script_enumeration": 1}
